@@ -75,6 +75,44 @@ def concrete_case(m, tabs, p):
     return c
 
 
+def answer_mismatch(e, fam, tabs, n, proc, got, canary=False):
+    """decide by z3, under the path condition, whether the answer `got` (list of T/F/u strings) of a semantics procedure equals the definition.
+    -> None or (model, oracle kind, expected answer under that model)"""
+    kind = oracle_kind(proc)
+    if kind == 'grounded':
+        g = got[0]
+        spec = A.oracle_lfp(fam, tabs, n)
+        conds = []
+        for s in range(n):
+            wt, wf = spec[s]
+            if canary: wt = z3.Not(wt)
+            conds.append(z3.Not(wt) if g[s] == 'T' else wt)
+            conds.append(z3.Not(wf) if g[s] == 'F' else wf)
+        m = sat_model(e, z3.Or(*conds))
+        if m is None: return None
+        return m, kind, [''.join('T' if mbool(m, spec[s][0]) else 'F' if mbool(m, spec[s][1]) else 'u' for s in range(n))]
+    if kind == 'complete': cands = [''.join(v) for v in itertools.product('TFu', repeat=n)]
+    else: cands = [''.join(v) for v in itertools.product('TF', repeat=n)]
+    phis = A.oracle_set(kind, fam, tabs, n, cands)
+    if canary: phis = {v: z3.Not(f) for v, f in phis.items()}
+    gotset = set(got)
+    probs = []
+    if len(gotset) != len(got): probs.append('duplicates')
+    if any(v not in phis for v in got): probs.append('not-a-candidate')
+    conds = [z3.Not(phis[v]) if v in gotset else phis[v] for v in cands]
+    if kind == 'complete':
+        spec = A.oracle_lfp(fam, tabs, n)
+        if got:
+            g = got[0]
+            for s in range(n):
+                conds.append(z3.Not(spec[s][0]) if g[s] == 'T' else spec[s][0])
+                conds.append(z3.Not(spec[s][1]) if g[s] == 'F' else spec[s][1])
+        else: probs.append('empty')
+    m = sat_model(e, True) if probs else sat_model(e, z3.Or(*conds))
+    if m is None: return None
+    return m, kind, [v for v in cands if mbool(m, phis[v])] + probs
+
+
 def sem_job(e, p):
     n = p['n']; proc = p['proc']; canary = p.get('canary')
     tabs = A.family_tabs(n, p['fam'])
@@ -94,43 +132,10 @@ def sem_job(e, p):
     adf, ra, bdd = A.make_adf(e, tabs, n)
     res, side = run_proc(e, proc, ra, adf)
     got = [A.classes(e, v) for v in res]
-    kind = oracle_kind(proc)
-    if kind == 'grounded':
-        g = got[0]
-        spec = A.oracle_lfp(p['fam'], tabs, n)
-        conds = []
-        for s in range(n):
-            wt, wf = spec[s]
-            if canary: wt = z3.Not(wt)
-            conds.append(z3.Not(wt) if g[s] == 'T' else wt)
-            conds.append(z3.Not(wf) if g[s] == 'F' else wf)
-        m = sat_model(e, z3.Or(*conds))
-        if m is not None:
-            exp = ''.join('T' if mbool(m, spec[s][0]) else 'F' if mbool(m, spec[s][1]) else 'u' for s in range(n))
-            report(e, 'wrong-grounded', what='grounded = %s, least fixpoint = %s' % (g, exp), case=concrete_case(m, tabs, p), expected=[exp], observed=got)
-        return {'proc': proc, 'result': got, 'nodes': len(bdd_nodes(e, bdd))}
-    if kind == 'complete': cands = [''.join(v) for v in itertools.product('TFu', repeat=n)]
-    else: cands = [''.join(v) for v in itertools.product('TF', repeat=n)]
-    phis = A.oracle_set(kind, p['fam'], tabs, n, cands)
-    if canary: phis = {v: z3.Not(f) for v, f in phis.items()}
-    gotset = set(got)
-    probs = []
-    if len(gotset) != len(got): probs.append('duplicates')
-    if any(v not in phis for v in got): probs.append('not-a-candidate')
-    conds = [z3.Not(phis[v]) if v in gotset else phis[v] for v in cands]
-    if kind == 'complete':
-        spec = A.oracle_lfp(p['fam'], tabs, n)
-        if got:
-            g = got[0]
-            for s in range(n):
-                conds.append(z3.Not(spec[s][0]) if g[s] == 'T' else spec[s][0])
-                conds.append(z3.Not(spec[s][1]) if g[s] == 'F' else spec[s][1])
-        else: probs.append('empty')
-    m = sat_model(e, True) if probs else sat_model(e, z3.Or(*conds))
-    if m is not None:
-        exp = [v for v in cands if mbool(m, phis[v])]
-        report(e, 'wrong-' + kind, what='%s returned %s, definition gives %s %s' % (proc, got, exp, probs), case=concrete_case(m, tabs, p),
-               expected=exp, observed=got, **extra(m))
+    wrong = answer_mismatch(e, p['fam'], tabs, n, proc, got, canary)
+    if wrong is not None:
+        m, kind_, exp = wrong
+        report(e, 'wrong-' + kind_, what='%s returned %s, definition gives %s' % (proc, got, exp), case=concrete_case(m, tabs, p), expected=exp, observed=got, **extra(m))
     if side.get('consumer_would_block') or ('senders_after' in side and side['senders_after'] != 1):
         m = sat_model(e, True)
         report(e, 'sender-not-dropped', what='%s returned without dropping the sender it was given' % proc, case=concrete_case(m, tabs, p), **extra(m))
